@@ -151,37 +151,29 @@ def run(ctx):
         w = cfg.path_exists(f, dp, cfg.is_exit, avoid=lambda p, e: isinstance(e, dict) and e.get("x") == "dtor" and e.get("did") == dv)
         r.check(w is None, "build|guard-runs-on-every-exit", "", "an exit after the guard was registered skips its destructor", f, defer)
 
-    r = rep.rule("R-EPOCH-PERSIST",
-                 "on every path from the epoch increment to the end of build() the current epoch is written to the database when "
-                 "one is attached — also when the work loop failed or was cancelled", floor=3)
-    inc = [n for n in f.nodes if n.get("k") == "un" and n["op"] == "++" and expr_str(n.child("e")) == "currentEpoch"]
-    if len(inc) != 1:
-        raise AnalysisBroken("build(): %d epoch increments" % len(inc))
-    a = arg_nodes(sci[0])
-    r.check(expr_str(core(a[0])) == "currentEpoch", "build|persists-current-epoch", "", "setCurrentIteration is given %s" % expr_str(a[0]), f, sci[0])
-    st = E.facts_at(bf, sci[0])
-    r.check(st == frozenset(x for x in st if x[0] != "success") and E.has(st, "db", True), "build|epoch-write-unconditional", "%s" % sorted(st),
-            "the epoch write depends on %s" % sorted(st), f, sci[0])
-    # every path from ++epoch to EXIT passes the `if (db)` that guards the write
-    gblk = None
-    for b in f.blocks.values():
-        c = b.cond()
-        if c is not None and expr_str(core(b.effective_cond())).startswith("db") and b.term["cls"] == "IfStmt":
-            s_true = b.succs[0]
-            if s_true is not None and cfg.path_exists(f, (s_true, -1), lambda p, e, sp=cfg.pos_of(f, sci[0]): p == sp) is not None and \
-                    cfg.dominated_by(f, cfg.pos_of(f, sci[0]), lambda p, e, tp=cfg.term_pos(f, b.id): p == tp)[0]:
-                # innermost such guard
-                if gblk is None or cfg.path_exists(f, cfg.term_pos(f, gblk.id), lambda p, e, tp=cfg.term_pos(f, b.id): p == tp) is not None:
-                    gblk = b
-    ok = gblk is not None
-    if ok:
-        tp = cfg.term_pos(f, gblk.id)
-        w = cfg.path_exists(f, cfg.pos_of(f, inc[0]), cfg.is_exit, avoid=lambda p, e: p == tp)
-        ok = w is None
-    r.check(ok, "build|epoch-written-on-every-path", "", "a path from the epoch increment leaves build() without passing the epoch write", f, sci[0])
-    # nothing between the work loop and the epoch write can return
-    w = cfg.path_exists(f, cfg.pos_of(f, ex[0]), cfg.is_exit, avoid=lambda p, e, tp=cfg.term_pos(f, gblk.id) if gblk else None: p == tp)
-    r.check(w is None, "build|no-exit-between-work-and-epoch-write", "", "build() can return between the work loop and the epoch write", f)
+    E.r_epoch_persist(prog, rep)
+
+    r = rep.rule("R-DB-ATOMIC-COMMIT",
+                 "nothing the database layer executes weakens SQLite's atomic commit: no PRAGMA journal_mode = OFF / MEMORY, no PRAGMA "
+                 "synchronous = OFF, no writable_schema, the file is opened with the default VFS (sqlite3_open on the path)", floor=15)
+    import re
+    for f_, c_, sql in db.literals:
+        fname = f_.name.split("::")[-1]
+        site = "%s|%s" % (fname, " ".join(sql.split()[:3])[:40])
+        m = re.match(r"\s*PRAGMA\s+([\w.]+)\s*(?:=|\()\s*['\"]?(\w+)", sql, re.I)
+        if m:
+            name, val = m.group(1).lower().split(".")[-1], m.group(2).upper()
+            bad = (name == "journal_mode" and val in ("OFF", "MEMORY")) or (name == "synchronous" and val in ("OFF", "0")) or \
+                (name == "writable_schema" and val not in ("OFF", "0", "FALSE")) or (name == "locking_mode" and val == "NORMAL" and False)
+            r.check(not bad, site, "", "PRAGMA %s = %s removes the on-disk rollback journal / sync that makes a killed commit recoverable" % (name, val), f_, c_)
+        else:
+            r.ok(site, SQL.classify(sql), f_, c_)
+    # dynamic PRAGMA text would hide from the literal scan: only sqlite3_mprintf in schema creation builds SQL
+    dyn = [(f_, c_) for f_ in db.fns for c_ in f_.calls() if (c_.get("fn") or "") in ("sqlite3_exec", "sqlite3_prepare_v2") and db.sql_text(f_, arg_nodes(c_)[1]) is None]
+    r.check(len(dyn) == 1 and dyn[0][0].name.endswith("::open"), "dynamic-sql-only-in-schema-creation", "", "SQL text built at run time in %s" % [d[0].name.split("::")[-1] for d in dyn])
+    opens = [(f_, c_) for f_ in db.fns for c_ in f_.calls() if (c_.get("fn") or "").startswith("sqlite3_open")]
+    ok = bool(opens) and all((c_.get("fn") or "") == "sqlite3_open" and expr_str(core(arg_nodes(c_)[0])) == "path.c_str()" for f_, c_ in opens)
+    r.check(ok, "open|default-vfs-on-path", "%d open call(s)" % len(opens), "database opened other than with sqlite3_open(path)", opens[0][0] if opens else None)
 
     r = rep.rule("R-RESULT-FROM-COMPLETED-TASK", "a rule result is written to the database only for a task taken from the finished queue, after it was "
                                                  "stamped complete and its discovered dependencies were appended", floor=3)
@@ -213,6 +205,12 @@ def failed_start_only(f, path_blocks, bs_call):
 
 
 VARIANTS = [
+    dict(name="journal-in-memory", file="lib/Core/SQLiteBuildDB.cpp", old="    sqlite3_busy_timeout(db, 5000);\n",
+         new="    sqlite3_busy_timeout(db, 5000);\n    sqlite3_exec(db, \"PRAGMA journal_mode = MEMORY;\", nullptr, nullptr, nullptr);\n", expect=("R-DB-ATOMIC-COMMIT", "PRAGMA journal_mode")),
+    dict(name="synchronous-off", file="lib/Core/SQLiteBuildDB.cpp", old="    sqlite3_busy_timeout(db, 5000);\n",
+         new="    sqlite3_busy_timeout(db, 5000);\n    sqlite3_exec(db, \"PRAGMA synchronous=OFF\", nullptr, nullptr, nullptr);\n", expect=("R-DB-ATOMIC-COMMIT", "PRAGMA synchronous")),
+    dict(name="benign-pragma-cache-size", file="lib/Core/SQLiteBuildDB.cpp", old="    sqlite3_busy_timeout(db, 5000);\n",
+         new="    sqlite3_busy_timeout(db, 5000);\n    sqlite3_exec(db, \"PRAGMA cache_size = 4000;\", nullptr, nullptr, nullptr);\n", expect=None),
     dict(name="epoch-write-only-on-success", file="lib/Core/BuildEngine.cpp",
          old="    // FIXME: Is it correct to do this here, or earlier?\n    if (db) {", new="    // FIXME: Is it correct to do this here, or earlier?\n    if (db && success) {",
          expect=("R-EPOCH-PERSIST", "build|epoch-write-unconditional")),
